@@ -61,7 +61,7 @@ def cases(tier, seed):
                     "cap": 20 if tier == "quick" else None})
     for layers in stacks1 + (stacks2 if tier == "thorough" else stacks2[:6]):
         out.append({"name": "nested.cb/%s" % ">".join(layers), "kind": "nestedcb", "layers": layers})
-    nf = 16 if tier == "quick" else 160
+    nf = 16 if tier == "quick" else 1500
     for i in range(nf):
         out.append({"name": "api.fuzz/%d" % i, "kind": "fuzz", "idx": i, "n": 12 if tier == "quick" else 30})
     return out
